@@ -154,3 +154,34 @@ URIS = [
 def loc_eq_corpus(i, j, a, b, c, d):
     x, y = Loc(URIS[i], a, b, c, d), Loc(URIS[j], a, b, c, d)
     return (x == y) == (i == j) and (x != y) == (i != j)
+
+
+# ---------------------------------------------------------------- fallback for a __repr__ the translator cannot read
+REPR_URIS = URIS + [
+    "",
+    "x",
+    "untitled:Untitled  1",
+    " leading and trailing ",
+    "tab\tinside",
+    "file:///" + "a" * 113,  # 121 characters, no blank
+    "file:///" + "very/long/path/" * 20,
+    "file:///a b/" + "c d " * 40,
+    "file:///caf\u00e9/\u4e2d\u6587",
+    "line\nbreak",
+]
+REPR_INTS = [0, 1, 9, 10, 99, 100, 2147483646, 2147483647]
+
+
+def repr_corpus(k, i, ai, bi, ci, di):
+    """repr on the real objects for a corpus of uris and numbers picked by symbolic indices"""
+    from vlib.xhrt import concretize
+
+    n = len(REPR_INTS)
+    ai, bi, ci, di, i = concretize(ai, n), concretize(bi, n), concretize(ci, n), concretize(di, n), concretize(i, len(REPR_URIS))
+    a, b, c, d = REPR_INTS[ai], REPR_INTS[bi], REPR_INTS[ci], REPR_INTS[di]
+    u = REPR_URIS[i]
+    if k == 0:
+        return repr(P(a, b)) == "%d:%d" % (a, b)
+    if k == 1:
+        return repr(R(a, b, c, d)) == "%d:%d-%d:%d" % (a, b, c, d)
+    return repr(Loc(u, a, b, c, d)) == "%s:%d:%d-%d:%d" % (u, a, b, c, d)
